@@ -352,6 +352,60 @@ fn leaves(tree: &Tree) -> Vec<(u16, usize, usize)> {
     }
 }
 
+/// Documents for the indentation language `pyish` (the generic generator knows nothing about
+/// layout): nested if/else/while blocks with consistent indentation.
+fn py_expr(rng: &mut Rng) -> String {
+    let id = *rng.pick(&["a", "b", "foo", "x_y", "ifx", "z"]);
+    match rng.below(5) {
+        0 => format!("{}", rng.below(100)),
+        1 => format!("{id}()"),
+        2 => format!("{id}({})", rng.below(10)),
+        _ => id.to_string(),
+    }
+}
+
+fn py_block(rng: &mut Rng, indent: usize, budget: &mut isize, depth: usize, out: &mut String) {
+    let n = 1 + rng.below(3);
+    for _ in 0..n {
+        out.push_str(&" ".repeat(indent));
+        let kind = if *budget > 3 && depth < 5 { rng.below(5) } else { 0 };
+        match kind {
+            3 | 4 => {
+                *budget -= 4;
+                let step = *rng.pick(&[1usize, 2, 4]);
+                let kw = if kind == 3 { "if" } else { "while" };
+                out.push_str(&format!("{kw} {}:\n", py_expr(rng)));
+                py_block(rng, indent + step, budget, depth + 1, out);
+                if kind == 3 && rng.chance(1, 3) {
+                    out.push_str(&" ".repeat(indent));
+                    out.push_str("else:\n");
+                    py_block(rng, indent + step, budget, depth + 1, out);
+                }
+            }
+            _ => {
+                *budget -= 2;
+                out.push_str(&py_expr(rng));
+                if rng.chance(1, 4) {
+                    out.push_str(&format!(", {}", py_expr(rng)));
+                }
+                out.push('\n');
+                if rng.chance(1, 8) {
+                    out.push('\n');
+                }
+            }
+        }
+    }
+}
+
+fn gen_pyish(rng: &mut Rng, budget: usize) -> Vec<u8> {
+    let mut out = String::new();
+    let mut b = budget as isize;
+    while b > 0 {
+        py_block(rng, 0, &mut b, 0, &mut out);
+    }
+    out.into_bytes()
+}
+
 fn token_bounds(tree: &Tree) -> Vec<usize> {
     let mut v = Vec::new();
     let mut c = tree.walk();
@@ -436,7 +490,7 @@ fn main() {
     }
     let corpus_cases = em.cases;
     let langs: Vec<String> = if only.is_empty() { zoo::list() } else { only };
-    let (docs_per_lang, hist_per_doc, exh_docs, exh_max) = if thorough { (40, 12, 6, 200) } else { (8, 4, 2, 48) };
+    let (docs_per_lang, hist_per_doc, exh_docs, exh_max) = if thorough { (60, 16, 8, 200) } else { (16, 6, 3, 60) };
     let mut hist_no = 0usize;
     let mut exhaustive_cases = 0usize;
     for id in langs {
@@ -452,7 +506,10 @@ fn main() {
         let mut pool: BTreeMap<u16, Vec<Vec<u8>>> = BTreeMap::new();
         for _ in 0..12 {
             let toks = gg.sentence(&mut rng, 30);
-            let (text, _) = gg.render(&toks, &mut rng);
+            let (mut text, _) = gg.render(&toks, &mut rng);
+            if id == "pyish" {
+                text = gen_pyish(&mut rng, 30);
+            }
             if let Some(t) = probe.parse(&text, None) {
                 if !t.root_node().has_error() {
                     for (k, a, b) in leaves(&t) {
@@ -468,6 +525,10 @@ fn main() {
             let budget = [4, 10, 25, 60][d % 4];
             let toks = gg.sentence(&mut rng, budget);
             let (mut text, mut bounds) = gg.render(&toks, &mut rng);
+            if id == "pyish" {
+                text = gen_pyish(&mut rng, budget);
+                bounds.clear();
+            }
             if d % 5 == 4 {
                 text = gen::mutate_bytes(&mut rng, &text);
             }
@@ -480,7 +541,7 @@ fn main() {
                 bounds.dedup();
             }
             let mut alphabet: Vec<Vec<u8>> = toks.iter().take(12).map(|t| t.text.clone().into_bytes()).collect();
-            alphabet.extend([b" ".to_vec(), b"\n".to_vec(), b"x".to_vec(), b"(".to_vec(), "é".as_bytes().to_vec(), b"\n\n".to_vec(), b"1".to_vec(), b"\"".to_vec()]);
+            alphabet.extend([b" ".to_vec(), b"\n".to_vec(), b"x".to_vec(), b"(".to_vec(), "é".as_bytes().to_vec(), b"\n\n".to_vec(), b"1".to_vec(), b"\"".to_vec(), b"  ".to_vec(), b"\n  ".to_vec()]);
             let alpha_refs: Vec<&[u8]> = alphabet.iter().map(|v| v.as_slice()).collect();
             for _h in 0..hist_per_doc {
                 let steps = rng.range(1, 8);
@@ -517,7 +578,10 @@ fn main() {
                         // towards a freshly derived sentence
                         5 => {
                             let toks2 = gg.sentence(&mut rng, budget);
-                            let (t2, _) = gg.render(&toks2, &mut rng);
+                            let (mut t2, _) = gg.render(&toks2, &mut rng);
+                            if id == "pyish" {
+                                t2 = gen_pyish(&mut rng, budget);
+                            }
                             diff_edit(&cur, &t2)
                         }
                         _ => random_edit(&mut rng, &cur, &bounds, &alpha_refs),
